@@ -173,8 +173,24 @@ func (s Scale) Min(s1 Scale) (max Scale) {
 // BinarySize returns the serialized size of the object in bytes.
 // Each value is encoded with .Text('e', ceil(ScalePrecision / log2(10))).
 func (s Scale) BinarySize() int {
-	// 21 for JSON formatting plus 2*(6 + ScalePrecisionLog10) for the scales encoding.
-	return 21 + (ScalePrecisionLog10+6)<<1
+	// 21 for JSON formatting plus the two numbers: 6 + ScalePrecisionLog10 characters each
+	// as long as their decimal exponent has two digits, one more per additional digit.
+	return 21 + len(s.Value.Text('e', ScalePrecisionLog10)) + len(s.modText())
+}
+
+// modText returns the encoding of the modulus of the scale (zero if there is none).
+func (s Scale) modText() string {
+
+	if s.Mod != nil {
+		return new(big.Float).SetPrec(ScalePrecision).SetInt(s.Mod).Text('e', ScalePrecisionLog10)
+	}
+
+	var m string
+	for i := 0; i < ScalePrecisionLog10; i++ {
+		m += "0"
+	}
+
+	return "0." + m + "e+00"
 }
 
 // MarshalBinary encodes the object into a binary form on a newly allocated slice of bytes.
@@ -190,26 +206,12 @@ func (s *Scale) UnmarshalBinary(p []byte) (err error) {
 
 // MarshalJSON encodes the object into a binary form on a newly allocated slice of bytes.
 func (s Scale) MarshalJSON() (p []byte, err error) {
-	var mod string
-
-	if s.Mod != nil {
-		mod = new(big.Float).SetPrec(ScalePrecision).SetInt(s.Mod).Text('e', ScalePrecisionLog10)
-	} else {
-
-		var m string
-		for i := 0; i < ScalePrecisionLog10; i++ {
-			m += "0"
-		}
-
-		mod = "0." + m + "e+00"
-	}
-
 	aux := &struct {
 		Value string
 		Mod   string
 	}{
 		Value: s.Value.Text('e', ScalePrecisionLog10),
-		Mod:   mod,
+		Mod:   s.modText(),
 	}
 
 	p, err = json.Marshal(aux)
@@ -228,21 +230,22 @@ func (s *Scale) UnmarshalJSON(p []byte) (err error) {
 		return
 	}
 
-	s.Value.SetPrec(ScalePrecision)
-	s.Value.SetString(aux.Value)
+	// The numbers are parsed into new storage: the receiver's previous value and
+	// modulus may be shared with other scales (scales are copied by assignment).
+	value, ok := new(big.Float).SetPrec(ScalePrecision).SetString(aux.Value)
+	if !ok {
+		return fmt.Errorf("Scale: UnmarshalJSON: invalid Value %q", aux.Value)
+	}
 
-	mod, bool := new(big.Float).SetString(aux.Mod)
+	mod, ok := new(big.Float).SetString(aux.Mod)
+	if !ok {
+		return fmt.Errorf("Scale: UnmarshalJSON: invalid Mod %q", aux.Mod)
+	}
 
-	if mod.Cmp(new(big.Float)) != 0 {
+	s.Value = *value
 
-		if s.Mod == nil {
-			s.Mod = new(big.Int)
-		}
-
-		if !bool {
-			return fmt.Errorf("Scale: UnmarshalJSON: s.Mod != exact")
-		}
-
+	if mod.Sign() != 0 {
+		s.Mod = new(big.Int)
 		mod.Int(s.Mod)
 	} else {
 		s.Mod = nil
